@@ -76,7 +76,8 @@ def real_verdict(r):
         return "err"
     if "panic" in r:
         p = r["panic"]
-        if "/repo/impl/src" in p.get("loc", "") and DELIBERATE_PANIC.search(p.get("msg", "")):
+        if "impl/src/" in p.get("loc", "") and "/registry/" not in p.get("loc", "") \
+                and DELIBERATE_PANIC.search(p.get("msg", "")):
             return "panic-diag"
         return "panic-internal"
     return "crash"
@@ -305,8 +306,9 @@ def run(tier, seed, replay):
         cases.append(dict(rp, role=rp.get("role", "replay")))
     else:
         per = 60 if tier == "quick" else 500
+        weight = {"Display": 4, "Into": 3, "Debug": 2, "From": 2, "AsRef": 2}   # grammars with field-wise merging
         for d in sorted(gens):
-            for _ in range(per):
+            for _ in range(per * weight.get(d, 1)):
                 it = gens[d](rng)
                 cases.append({"derive": d, "role": "base", "kind": "base", "item": it})
                 for k, n, mode in M.rewrites(d, it):
